@@ -198,7 +198,7 @@ PROPS = {
     "C01": {
         "families": [("mailbox", 900, 25000), ("backpressure", 400, 10000)],
         "monitors": ["C03"],
-        "theorems": ["C01_mailbox_discipline", "C01_handler_takes_head", "C01_queued_at_most_once", "C01_no_overlap"],
+        "theorems": ["C01_mailbox_discipline", "C01_handler_takes_head", "C01_queued_at_most_once", "C01_no_overlap", "C01_first_in_first_handled", "C01_submission_goes_to_the_tail"],
         "nontrivial": nt_c01,
         "rule": "cases generated from (family, VERIF_SEED, index): 1-4 client tasks, send/call/ping/force through Addr, OwningAddr, Sender, Caller, WeakSender, WeakCaller obtained by conversion chains, mailbox unbounded or bounded(0..4), handlers with and without sleeps, timers as background traffic, random schedules; non-trivial = at least two client tasks submitted to the actor through both the waiting and the non-waiting path and at least three messages were handled; distinct = distinct case JSON",
         "assumptions": ["'handled' = handler invocation began", "real-time order between submissions (Ret before Op) is taken from the order of events on the single-threaded executor"],
@@ -224,7 +224,7 @@ PROPS = {
     "C11": {
         "families": [("timeouts", 1200, 30000), ("faults", 200, 6000)],
         "monitors": ["C11"],
-        "theorems": ["C11_abandon_only_past_limit"],
+        "theorems": ["C11_abandon_only_past_limit", "C11_abandoned_exactly_at_the_limit"],
         "nontrivial": nt_c11,
         "rule": "cases generated from (family, VERIF_SEED, index): timeouts 2..40 (even), handler sleeps odd so that no handler needs exactly t, further messages queued behind slow ones, fail_on_timeout in {false,true}, both mailbox kinds; non-trivial = an actor with a configured timeout ran a handler that slept or was abandoned; distinct = distinct case JSON",
         "assumptions": ["virtual clock of the harness executor; durations exactly equal to the timeout (a genuine select! tie) are not generated"],
@@ -248,8 +248,8 @@ PROPS = {
     },
     "C16": {
         "families": [("children", 1200, 30000), ("faults", 200, 6000)],
-        "monitors": ["C03"],
-        "theorems": ["C16_child_is_held_strongly", "C16_released_only_with_parent", "C16_parent_end_releases_children", "C16_broadcast_targets"],
+        "monitors": ["C03", "C16"],
+        "theorems": ["C16_child_is_held_strongly", "C16_released_only_with_parent", "C16_parent_end_releases_children", "C16_broadcast_targets", "C16_broadcast_is_complete"],
         "nontrivial": nt_c16,
         "rule": "cases generated from (family, VERIF_SEED, index): actor trees up to depth 3 built by handlers that spawn children and register them under two message types, children also held from outside, broadcasts from handlers, parent termination by stop, last drop, failure, panic and cancellation at random times; non-trivial = a parent with registered children broadcast to them or its task ended; distinct = distinct case JSON",
         "assumptions": ["completeness of one broadcast (one submission per registered child of the type) is checked by the search acceptor on every implementation trace, not proved: the model fixes the target of the i-th submission but not the number of submissions"],
@@ -376,9 +376,10 @@ MANIFEST_TEXT = {
     "C16": {
         "text": "Theorems (Coq, one-step, for every state): C16_child_is_held_strongly (a child is registered through a strong Sender, which stays counted), C16_released_only_with_parent (for every event: a handle leaves the table only by its holder's drop or by the end of the task of a parent holding it as a child), "
                 "C16_parent_end_releases_children (every way the parent's task ends releases all of them), C16_broadcast_targets (the i-th submission of a send_to_children goes to the i-th child under that type: none twice, none of another type). "
-                "[partial] 'children without other handles then drain and stop gracefully, recursively' is the C04/C05 closed-mailbox path applied to each released child; completeness of a broadcast is checked by the search acceptor; both are validated by correspondence on the children family.",
+                "C16_broadcast_is_complete (simulation, every accepted trace of any length: when send_to_children returns it has made exactly one submission per child registered under the type; the machine Chk/C16.v is also extracted and run on every implementation trace). "
+                "[partial] 'children without other handles then drain and stop gracefully, recursively' is the C04/C05 closed-mailbox path applied to each released child, validated by correspondence on the children family and the search acceptor.",
         "note": COMMON_NOTE,
-        "technique": "Rocq/Coq proof (one-step theorems over all states and events) over an executable model; correspondence by differential run of model and implementation",
+        "technique": "Rocq/Coq proof (simulation of every accepted trace by a broadcast machine + one-step theorems over all states and events) over an executable model; correspondence by differential run of model and implementation",
         "design_ref": "DESIGN.md section 6 C16",
     },
     "C04": {
@@ -425,15 +426,15 @@ MANIFEST_TEXT = {
     "C01": {
         "text": "Theorems (Coq): C01_mailbox_discipline (every step changes every queue only by append-at-tail of a fresh id / remove-head / drop), C01_handler_takes_head, "
                 "C01_queued_at_most_once (NoDup of queued ids in every reachable state), C01_no_overlap (lifecycle automaton). Together: FIFO, sequential, at-most-once, for both submission paths and all handle kinds "
-                "(the model has one queue per actor). [partial] the real-time-order clause as a trace statement and 'state = sequential fold' are enforced by the model's rules (call responses and join values are compared with the model's state) "
-                "and checked on every implementation trace by correspondence and by the search acceptor, not stated as separate theorems.",
+                "(the model has one queue per actor). Over whole executions: C01_first_in_first_handled (a message queued behind another is handled, on every continuation of any length, only after the one ahead was handled - or answered as a ping -, never before it nor without it), C01_submission_goes_to_the_tail. "
+                "[partial] that a submission is in the queue by the time its operation returns is how the model is built (it enqueues at the Op event) and is validated by correspondence; 'state = sequential fold' is enforced by the model's rules (call responses and join values are compared with the model's state) and checked on every implementation trace.",
         "note": COMMON_NOTE,
-        "technique": "Rocq/Coq proof (invariants over all reachable states + one-step characterisation) over an executable model; correspondence by differential run of model and implementation",
+        "technique": "Rocq/Coq proof (invariants over all reachable states, a trace theorem by induction over continuations, one-step characterisation) over an executable model; correspondence by differential run of model and implementation",
         "design_ref": "DESIGN.md section 6 C01",
     },
     "C18": {
         "text": "Theorems C18_entry_survives / C18_rt_independent (Coq, by computation over two tables regenerated from the source on every run: what each of the 12 spawn entry points does with the task handle, "
-                "what dropping the handle does on each runtime's spawner): every entry point yields a surviving actor on every runtime. The tables' claim about the runtimes is validated on every run by executing 72 "
+                "what dropping the handle does on each runtime's spawner): every entry point yields a surviving actor on every runtime. The tables' claim about the runtimes is validated on every run by executing 75 "
                 "timing-independent scenarios on tokio, async-std and smol and demanding identical outcome lines (and equality with the recorded outcomes). The theorems are thin because the truth lives in external runtimes; this is stated in the evidence.",
         "note": COMMON_NOTE,
         "technique": "Rocq/Coq proof over tables translated from the source (translator re-run every check) + cross-runtime differential execution",
@@ -449,10 +450,10 @@ MANIFEST_TEXT = {
     },
     "C11": {
         "text": "Theorem C11_abandon_only_past_limit (Coq, simulation): on every execution the model accepts an invocation is abandoned only past its configured limit (never without a timeout, never on stream-attached actors) "
-                "and completes only within it. [partial] exactness (abandoned at t, not later), 'caller receives an error', 'no further effects' and 'state intact / actor failed' are enforced by model rules "
-                "(progress check at clock events; slot cancellation; phase after abandonment) and validated by correspondence plus the search acceptor, not stated as separate theorems.",
+                "and completes only within it; C11_abandoned_exactly_at_the_limit (invariant over all reachable states: no handler deadline is overdue, so an abandonment by timeout happens at the very instant begin + limit). "
+                "[partial] 'caller receives an error', 'no further effects' and 'state intact / actor failed' are enforced by model rules (slot cancellation; phase after abandonment) and validated by correspondence plus the search acceptor, not stated as separate theorems.",
         "note": COMMON_NOTE,
-        "technique": "Rocq/Coq proof (simulation) over an executable model with a virtual clock; correspondence by differential run of model and implementation",
+        "technique": "Rocq/Coq proof (simulation + invariant over all reachable states) over an executable model with a virtual clock; correspondence by differential run of model and implementation",
         "design_ref": "DESIGN.md section 6 C11",
     },
     "C13": {
